@@ -1,0 +1,16 @@
+//go:build verif
+
+package binaryheap
+
+// VerifBacking returns a copy of the backing array of the heap's array list (length = capacity) and the
+// number of stored elements. Read-only accessor for the verification harness.
+func (heap *Heap[E]) VerifBacking() ([]E, int) {
+	return heap.list.VerifBacking(), heap.list.Size()
+}
+
+// VerifBacking returns the wrapped heap's backing array and size.
+func (s *HeapSafe[E]) VerifBacking() ([]E, int) {
+	s.lock.Lock()
+	defer s.lock.Unlock()
+	return s.unsafe.VerifBacking()
+}
